@@ -139,6 +139,27 @@ func fieldIndex(n *types.Named, name string) int {
 	return -1
 }
 
+// fieldIndexOpt: as fieldIndex, -1 when the struct has no field of that role or name.
+func fieldIndexOpt(n *types.Named, name string) int {
+	st, ok := n.Underlying().(*types.Struct)
+	if !ok {
+		return -1
+	}
+	if m, ok := fieldRoles[n]; ok {
+		for i, r := range m {
+			if r == name {
+				return i
+			}
+		}
+	}
+	for i := 0; i < st.NumFields(); i++ {
+		if st.Field(i).Name() == name {
+			return i
+		}
+	}
+	return -1
+}
+
 func resolveAnchors(c *Ctx) *Anchors {
 	a := &Anchors{}
 	c.resolveTypeAnchors(a)
@@ -469,12 +490,14 @@ func evalFunctionTableAbs(c *Ctx, a *Anchors) []*TableEntry {
 		} else {
 			lost("function table: entry %q: handler is not a named function", key)
 		}
-		switch hb := f[fi("hasExpRef")]; {
-		case hb.k == 'B' && hb.tri == 1:
-			e.HasExpRef = true
-		case hb.k == 'B' && hb.tri == 2:
-		default:
-			lost("function table: entry %q: hasExpRef not constant", key)
+		if hi := fieldIndexOpt(a.FEntryT, "hasExpRef"); hi >= 0 {
+			switch hb := f[hi]; {
+			case hb.k == 'B' && hb.tri == 1:
+				e.HasExpRef = true
+			case hb.k == 'B' && hb.tri == 2:
+			default:
+				lost("function table: entry %q: hasExpRef not constant", key)
+			}
 		}
 		for _, sv := range listElems(f[fi("arguments")], "arguments of "+key) {
 			if sv.k != 'G' || sv.agg == nil {
@@ -1187,7 +1210,10 @@ func (c *Ctx) resolveTypeAnchors(a *Anchors) {
 		_, ok := t.Underlying().(*types.Signature)
 		return ok
 	})), "handler")
-	setRole(a.FEntryT, one(a.FEntryT, "hasExpRef", fieldsWhere(a.FEntryT, basic(types.Bool))), "hasExpRef")
+	// (the flag may be absent: an entry type without it simply has no such role)
+	if bs := fieldsWhere(a.FEntryT, basic(types.Bool)); len(bs) > 0 {
+		setRole(a.FEntryT, one(a.FEntryT, "hasExpRef", bs), "hasExpRef")
+	}
 	typesIdx := one(a.ArgSpecT, "types", fieldsWhere(a.ArgSpecT, func(t types.Type) bool {
 		sl, ok := t.(*types.Slice)
 		return ok && inLib(named(sl.Elem()))
